@@ -41,7 +41,28 @@ def ops : List String :=
   ["contains", "has_prefix", "has_suffix", "split", "sub", "trim_prefix", "trim_suffix",
    "repeat", "join", "concat", "joinsplit"]
 
+/-- sparse / offset arrays are not sequences; the property only demands a value or an error -/
+def genSparseCase (idx : Nat) : Gen Case := do
+  let op ← pick ["contains", "has_prefix", "has_suffix", "split", "sub", "trim_prefix", "trim_suffix", "join", "repeat", "concat"]
+  let xs ← genXs 5 2
+  let p ← genPat xs 2
+  let hole ← rand (xs.length + 1)
+  let off ← pick [0, 0, 1, 3]
+  let items := (List.range xs.length).map (fun i => if i == hole && 0 < i && i + 1 < xs.length then "" else toString (xs.getD i 0))
+  let body := "[" ++ ", ".intercalate items ++ "]"
+  let subj := if off == 0 then body else s!"({off})\\{body}"
+  let ps := seqSrc .A p
+  let src := match op with
+    | "sub" => s!"//seq.sub({ps}, [7], {subj})"
+    | "repeat" => s!"//seq.repeat(2, {subj})"
+    | "join" => s!"//seq.join({ps}, [{subj}, [1]])"
+    | "concat" => s!"//seq.concat([{subj}, [1]])"
+    | o => s!"//seq.{o}({ps}, {subj})"
+  pure { id := s!"C14-sp-{idx}", cls := "good", kind := "eval", stratum := s!"sparse/{op}",
+         model := "!panic", spec := "!panic", payload := [src] }
+
 def genCase (idx : Nat) (big : Bool) : Gen Case := do
+  if (← chance 1 16) then return (← genSparseCase idx)
   let op ← pick ops
   let alpha ← pick [2, 2, 3]
   let maxLen := if big then 9 else 6
@@ -120,7 +141,11 @@ def corpus : List Case :=
     mkCase "C14-corpus-3" "corpus" "good" "//seq.sub([0, 0, 1], [2], [0, 0, 0, 1])"
       (Model.sub (a [0,0,1]) (a [2]) (a [0,0,0,1])) (SpecRes.sub (a [0,0,1]) (a [2]) (a [0,0,0,1])) false,
     mkCase "C14-corpus-4" "corpus" "good" "//seq.trim_suffix([2, 3], [1, 2, 3])"
-      (Model.trimSuffix (a [2,3]) (a [1,2,3])) (SpecRes.trimSuffix (a [2,3]) (a [1,2,3])) false ]
+      (Model.trimSuffix (a [2,3]) (a [1,2,3])) (SpecRes.trimSuffix (a [2,3]) (a [1,2,3])) false,
+    { id := "C14-corpus-5", cls := "good", kind := "eval", stratum := "corpus", model := "!panic", spec := "!panic",
+      payload := ["//seq.contains([2], [1, , 2])"] },
+    { id := "C14-corpus-6", cls := "good", kind := "eval", stratum := "corpus", model := "!panic", spec := "!panic",
+      payload := ["//seq.split([0], [1, , 0, 2])"] } ]
 
 def gen (seed n : Nat) (thorough : Bool) : List Case := Id.run do
   let mut out := corpus
